@@ -18,6 +18,11 @@ type attack struct {
 	Cuts   []int   `json:"write_cuts"`
 	Close  string  `json:"close"` // fin | rst | none (left open until the end)
 	Class  string  `json:"class"`
+	// hostile_responses: the attacker registers, a dispatcher sends it these commands as soon as it is online and it
+	// answers each with the echoed serial followed by a hostile body (the server parses responses to outstanding commands)
+	Hello    kit.Hex `json:"hello,omitempty"`
+	Key      string  `json:"key,omitempty"`
+	Commands []Rule  `json:"commands_and_answers,omitempty"`
 }
 
 type c10Case struct {
@@ -31,7 +36,39 @@ func genAttack(t *rapid.T, k int) attack {
 	a := attack{Close: rapid.SampledFrom([]string{"fin", "rst", "none"}).Draw(t, "close")}
 	id := identity{Digits: fmt.Sprintf("1570000%04d", 2000+k), V2019: rapid.Bool().Draw(t, "v")}
 	serial := uint16(1)
-	switch rapid.IntRange(0, 7).Draw(t, "class") {
+	switch rapid.IntRange(0, 9).Draw(t, "class") {
+	case 8, 9:
+		a.Class = "hostile_responses"
+		a.Hello = frame(id, 0x0002, serial, nil)
+		a.Key = id.key()
+		word32 := []uint32{0x40000000, 0x80000000, 0xc0000000, 0xffffffff, 0x09249249, 0x12492493, 1, 2, 0x00010000}
+		for i, n := 0, rapid.IntRange(1, 3).Draw(t, "cmds"); i < n; i++ {
+			r := Rule{Cmd: rapid.SampledFrom([]uint16{0x9205, 0x9205, 0x8104, 0x9206, 0x8801, 0x9003}).Draw(t, "cmd"), Behaviour: "answer"}
+			var tail []byte
+			switch r.Cmd {
+			case 0x9205: // 0x1205: total(4) then 28-byte items
+				w := rapid.SampledFrom(word32).Draw(t, "total")
+				tail = []byte{byte(w >> 24), byte(w >> 16), byte(w >> 8), byte(w)}
+				tail = append(tail, make([]byte, 28*rapid.IntRange(0, 2).Draw(t, "items"))...)
+			case 0x9003: // 0x1003 (10 bytes, no echoed serial: the "serial" bytes are part of it)
+				r.RespID = 0x1003
+				tail = rapid.SliceOfN(rapid.Byte(), 0, 12).Draw(t, "attr")
+			case 0x8801: // 0x0805: result(1) count(2) ids(4 each)
+				w := rapid.SampledFrom([]uint16{0x4000, 0x8000, 0xc000, 0xffff, 1, 2}).Draw(t, "cnt16")
+				tail = append([]byte{0, byte(w >> 8), byte(w)}, make([]byte, 4*rapid.IntRange(0, 2).Draw(t, "ids"))...)
+			case 0x8104: // 0x0104: count(1) then id(4) len(1) value
+				tail = append([]byte{rapid.SampledFrom([]byte{0, 1, 2, 255}).Draw(t, "cnt8")}, rapid.SliceOfN(rapid.SampledFrom([]byte{0, 1, 4, 0x13, 0x83, 0xff, 0x7e}), 0, 24).Draw(t, "tlv")...)
+			default:
+				tail = rapid.SliceOfN(rapid.Byte(), 0, 30).Draw(t, "raw")
+			}
+			if rapid.IntRange(0, 4).Draw(t, "cut_tail") == 0 && len(tail) > 0 {
+				tail = tail[:rapid.IntRange(0, len(tail)-1).Draw(t, "cut_at")]
+			}
+			r.RespTail = append(kit.Hex{}, tail...)
+			r.Prefix = []byte{0xa7, byte(i)}
+			a.Commands = append(a.Commands, r)
+		}
+		return a
 	case 7:
 		// presents the witness's own phone number: must be refused without disturbing the witness
 		a.Class = "steal_witness_key"
@@ -137,6 +174,16 @@ func checkC10(c c10Case, _ *kit.Collector) kit.Result {
 	sc.Actors = append(sc.Actors, Actor{Name: "witness", Kind: "terminal", Steps: wsteps})
 	for i, a := range c.Attacks {
 		steps := []Step{{Op: "barrier", Barrier: "start", Parties: len(c.Attacks) + 1}, {Op: "dial"}}
+		if a.Class == "hostile_responses" {
+			steps = append(steps, Step{Op: "respond", Rules: a.Commands}, Step{Op: "write", Hex: a.Hello}, Step{Op: "wait_frames", N: 1 + len(a.Commands), DeadlineMs: 1500},
+				Step{Op: "pause", PauseUs: 30000})
+			var ds []Step
+			for k, r := range a.Commands {
+				ds = append(ds, Step{Op: "send_when_online", Key: a.Key, Cmd: r.Cmd, Body: append([]byte{0xa7, byte(k)}, 0x01), TimeoutMs: 300, Async: true, CallID: 5000 + 10*i + k, DeadlineMs: 2500, PauseUs: 300})
+			}
+			ds = append(ds, Step{Op: "join_calls", DeadlineMs: 3000})
+			sc.Actors = append(sc.Actors, Actor{Name: fmt.Sprintf("dispatcher%d", i), Kind: "platform", Steps: ds})
+		}
 		prev := 0
 		for _, cut := range append(append([]int{}, a.Cuts...), len(a.Stream)) {
 			if cut > prev {
